@@ -13,9 +13,10 @@ CONSTANTS
   MaxRows = 2
   NData = 2
   ByteCube = {}
-  Strat = {0, 1, 2, 63, 64, 127, 128, 129, 191, 254, 255}
+  Strat = {0, 1, 2, 3, 63, 64, 127, 128, 129, 191, 254, 255}
   StratRow = {0, 1, 127, 128, 255}
   MaxChain = 2
+  PaethPlanes = 0
   Emit = TRUE
 INVARIANTS RoundTrip EncoderShape Refines DevExplained PaethOK RowOK EmitInv
 CHECK_DEADLOCK FALSE
